@@ -51,9 +51,24 @@ pub fn scratch_cleanup() {
     let _ = std::fs::remove_dir_all(scratch_root());
 }
 
+thread_local! {
+    /// one sub-directory per thread: creating and unlinking thousands of database files in one tmpfs directory
+    /// from sixteen threads serialises on that directory
+    static SCRATCH_DIR: std::cell::RefCell<Option<PathBuf>> = const { std::cell::RefCell::new(None) };
+}
+
 pub fn scratch_file(tag: &str) -> PathBuf {
     let n = SCRATCH_SEQ.fetch_add(1, Ordering::SeqCst);
-    scratch_root().join(format!("{tag}-{n}.db"))
+    let dir = SCRATCH_DIR.with(|d| {
+        let mut d = d.borrow_mut();
+        if d.is_none() {
+            let p = scratch_root().join(format!("t{n}"));
+            let _ = std::fs::create_dir_all(&p);
+            *d = Some(p);
+        }
+        d.clone().unwrap()
+    });
+    dir.join(format!("{tag}-{n}.db"))
 }
 
 // ---------------------------------------------------------------------------------------
